@@ -1067,3 +1067,20 @@ Theorem c13_gzi_trailing_bytes_invalid_data : forall idx b t,
   read_gzi_k (w_gzi idx ++ b :: t) = inl Stream.InvalidData.
 Proof. exact gzi_trailing_kind. Qed.
 Print Assumptions c13_gzi_trailing_bytes_invalid_data.
+
+(* ---- VCF text header since `fix:` ae9f807 (read_header stops behind the line the parser takes
+   for #CHROM; model NV.Trunc.TextHeader.text_read_header_sw, used by vcf_text_read_header): the
+   whole header text followed by ANYTHING - nothing, a record, a line that starts with '#', a
+   source that fails right behind it - returns the written header and leaves exactly what follows
+   unread.  Cuts INSIDE the header text are compared with the reader cut by cut (kinds vcfth /
+   vcfthz); c13_text_header_truncation keeps describing the SAM reader (no stop) ---- *)
+From NV Require Import Trunc.TextHeaderSwProofs.
+Theorem c13_vcf_text_header_whole_stops_at_chrom :
+  forall (prefix : N) (St H : Type) (init : St) (parse_line : St -> list N -> option St)
+         (finish : St -> option H) (done : St -> bool) hls last h st after tail,
+    Forall (hline_ok prefix) (hls ++ [last]) ->
+    th_run St parse_line (lines (hls ++ [last])) init = Some st -> done st = true -> finish st = Some h ->
+    not_done_before St init parse_line done (hls ++ [last]) ->
+    text_read_header_sw prefix St H init parse_line finish done after (htext (hls ++ [last]) ++ tail) = HOk h tail.
+Proof. exact text_header_whole_sw. Qed.
+Print Assumptions c13_vcf_text_header_whole_stops_at_chrom.
